@@ -86,6 +86,10 @@ Record hobj := {
   ob_fitted : bool
 }.
 
+(* a DailyModel / BillingModel object: its settings profile and, as its own prior state, the data it was last fitted on
+   (df_meter, components, fit_components, the optimiser results of the previous fit stay on the object) *)
+Record dbobj := { db_fam : family; db_cfg : Z; db_last : option Z }.
+
 Fixpoint set_nth {A : Type} (k : nat) (x : A) (l : list A) : list A :=
   match l, k with
   | [], _ => []
@@ -103,13 +107,14 @@ Record gstate := {
                                has been compiled, the settings profile of the fit that compiled it -- that fit's view of
                                every module-level value is what numba froze into the compiled functions *)
   g_models : list res;      (* result of every operation so far, oldest first *)
-  g_objs : list hobj        (* the HourlyModel objects constructed so far (NewHourly, FromJson), oldest first *)
+  g_objs : list hobj;       (* the HourlyModel objects constructed so far (NewHourly, FromJson), oldest first *)
+  g_dbs : list dbobj        (* the DailyModel / BillingModel objects constructed so far (NewDB) *)
 }.
 
 (* a process starts with whatever JIT cache earlier processes left on disk *)
 Definition init_cache (pid threads : Z) (cache : list (family * Z)) : gstate :=
   {| g_rng := rng_start pid; g_threads := threads; g_ct_default := []; g_warm := []; g_jit := cache; g_models := [];
-     g_objs := [] |}.
+     g_objs := []; g_dbs := [] |}.
 Definition init (pid threads : Z) : gstate := init_cache pid threads [].
 
 Definition fam_eqb (a b : family) : bool :=
@@ -131,16 +136,24 @@ Inductive op :=
 | NewHourly (c : hcfg) (seed : option Z)   (* HourlyModel(settings=...): object number length(g_objs) *)
 | FitObj (k : nat) (d : Z)                 (* object k: fit(data d), then to_json() and the fixed prediction are taken *)
 | ToJson (k : nat)                         (* object k (fitted): to_json() *)
-| FromJson (k : nat).                      (* HourlyModel.from_json(object k .to_json()): a new object *)
+| FromJson (k : nat)                       (* HourlyModel.from_json(object k .to_json()): a new object *)
+| NewDB (f : family) (cfg : Z)             (* DailyModel(...) / BillingModel(...): daily/billing object number length(g_dbs) *)
+| FitDB (k : nat) (d : Z).                 (* daily/billing object k: fit(data d) -- possibly not its first fit *)
 
 Definition with_result (s : gstate) (r : rng) (w : list family) (x : res) : gstate * res :=
   ({| g_rng := r; g_threads := g_threads s; g_ct_default := g_ct_default s; g_warm := w;
       g_jit := match x with RFit f _ cfg _ _ => jit_populate f cfg (g_jit s) | _ => g_jit s end;
-      g_models := g_models s ++ [x]; g_objs := g_objs s |}, x).
+      g_models := g_models s ++ [x]; g_objs := g_objs s; g_dbs := g_dbs s |}, x).
 
 Definition with_objs (p : gstate * res) (objs : list hobj) : gstate * res :=
   ({| g_rng := g_rng (fst p); g_threads := g_threads (fst p); g_ct_default := g_ct_default (fst p);
-      g_warm := g_warm (fst p); g_jit := g_jit (fst p); g_models := g_models (fst p); g_objs := objs |}, snd p).
+      g_warm := g_warm (fst p); g_jit := g_jit (fst p); g_models := g_models (fst p); g_objs := objs;
+      g_dbs := g_dbs (fst p) |}, snd p).
+
+Definition with_dbs (p : gstate * res) (dbs : list dbobj) : gstate * res :=
+  ({| g_rng := g_rng (fst p); g_threads := g_threads (fst p); g_ct_default := g_ct_default (fst p);
+      g_warm := g_warm (fst p); g_jit := g_jit (fst p); g_models := g_models (fst p); g_objs := g_objs (fst p);
+      g_dbs := dbs |}, snd p).
 
 (* to_json() of an object re-runs the settings' after-validator (SerializeModel(settings=self.settings)): with a seed
    in the settings nothing changes; without, the object's _seed is replaced by a new draw *)
@@ -227,6 +240,18 @@ Definition step (s : gstate) (o : op) : gstate * res :=
             with_objs (with_result s r2 (g_warm s) RNothing) (set_nth k o' (g_objs s) ++ [n])
           else with_result s (g_rng s) (g_warm s) RNothing
       | None => with_result s (g_rng s) (g_warm s) RNothing
+      end
+  | NewDB f cfg =>
+      with_dbs (with_result s (g_rng s) (g_warm s) RNothing) (g_dbs s ++ [{| db_fam := f; db_cfg := cfg; db_last := None |}])
+  | FitDB k d =>
+      match nth_error (g_dbs s) k with
+      | None => with_result s (g_rng s) (g_warm s) RNothing
+      | Some o =>
+          (* fit() re-initialises everything it uses from the data it is given: what the object was fitted on before
+             (db_last) is not read *)
+          with_dbs (with_result s (g_rng s) (db_fam o :: g_warm s)
+                      (RFit (db_fam o) d (db_cfg o) (thread_class (db_fam o) (g_threads s)) []))
+                   (set_nth k {| db_fam := db_fam o; db_cfg := db_cfg o; db_last := Some d |} (g_dbs s))
       end
   end.
 
